@@ -313,4 +313,22 @@ theorem sim_wakePass (f2 : Nat) : ∀ (f1 : Nat) (w : W) (g : Good w) (cl : CurL
         simp only [hws, List.isEmpty_cons, Bool.false_eq_true, if_false]
         exact ⟨hs, ⟨fun _ => habs1, fun h => by rw [show (w.modK (·.getWaitLock.1)).gone = w.gone from rfl, hg] at h; exact absurd h (by simp)⟩, ho⟩
 
+/-- **`wakeUpWaitLocks` refines stage 1's `wake`** -/
+theorem sim_wake (w : W) (g : Good w) (cl : CurLive w.k) (hg : w.gone = false) (cn : CurNone w.k) (q : WQ w.k)
+    (a : Engine.DB) (hs : Scal a w.db) (ki : Engine.KeyInv (Key.abs w.k)) (out1 : List Engine.Reply) (ho : w.out.map (·.r) = out1) :
+    Scal (Engine.wake a (Key.abs w.k) out1).1 w.wake.db ∧ Loc w.wake (Engine.wake a (Key.abs w.k) out1).2.1 ∧
+      w.wake.out.map (·.r) = (Engine.wake a (Key.abs w.k) out1).2.2 := by
+  unfold W.wake W.when Engine.wake
+  cases hwd : w.k.waited with
+  | true =>
+    simp only [if_true]
+    exact sim_wakePass _ _ w g cl hg cn q (Or.inl (Nat.le_refl _)) hwd a hs ki (Nat.lt_succ_self _) out1 ho
+  | false =>
+    simp only [Bool.false_eq_true, if_false]
+    have hwd1 : (Key.abs w.k).waited = false := hwd
+    unfold Engine.wakePass
+    rw [hwd1]
+    simp only [Bool.not_false, if_true]
+    exact ⟨hs, ⟨fun _ => rfl, fun h => by rw [hg] at h; exact absurd h (by simp)⟩, ho⟩
+
 end Slock.Sim
